@@ -104,6 +104,13 @@ CHECKS = {
         note="Trusted: the comparison harness; INDENT/DEDENT token text is ignored (lexer-base artefact nothing downstream reads). Built with cmake/g++ -O2 rather than the project's LTO flags.",
         design="4 C14",
     ),
+    "C15": dict(
+        category="model_checking",
+        technique="bounded-exhaustive enumeration of specs (grammars over printer-oriented atoms, C07 constraint family); read - print - re-read round trip compared structurally / by verdicts on all enumerated trees",
+        text="~1750 grammars (operator depth <= 2 over literals with both quote kinds, backslashes, non-ASCII, non-printables, bytes, str/bytes regexes with quotes, bits, groups under every postfix operator, every bound form, generators, computed repetitions) and ~900 (thorough ~1800) constraint programs: the generated text is read, printed with repr(grammar) / format_as_spec(), and the printed text is read again. The re-read grammar must denote the same language (both converted node by node into RefGrammar, structural comparison confirmed by a distinguishing word), generators must survive, and the re-read constraint must give the same verdict on every enumerated tree.",
+        note="Two printer defects were repaired; three are recorded known findings.",
+        design="4 C15",
+    ),
     "C16": dict(
         category="model_checking",
         technique="explicit-state reachability over trees under the search operators (all random resolutions) and deviation-bounded loop exploration on specs whose generator functions log every call",
